@@ -265,6 +265,6 @@ Definition run_prog (fuel : nat) (ms : max_steps) (objs : store) (bodies : list 
 
 (* check_dfs on a program: every execution's recorded schedule, in order *)
 From SV Require Import Engine.Runner Sched.Dfs.
-Definition run_prog_dfs (iters efuel : nat) (ms : max_steps) (max_iter : option nat) (objs : store) (bodies : list (list op))
+Definition run_prog_dfs (iters efuel : nat) (ms : max_steps) (max_iter : option nat) (allow_random_data : bool) (objs : store) (bodies : list (list op))
   : list (world * Exec.outcome) * dfs_state * bool :=
-  runner_loop dfs_sched ms iters efuel (compile (length objs) bodies) (objs ++ [OJoins []]) (mkDfsSt (dfs_new max_iter) false).
+  runner_loop dfs_sched ms iters efuel (compile (length objs) bodies) (objs ++ [OJoins []]) (dfs_initial max_iter allow_random_data).
